@@ -16,6 +16,7 @@ pub struct Args {
 }
 
 fn main() {
+    std::panic::set_hook(Box::new(|_| {}));
     let argv: Vec<String> = std::env::args().collect();
     if argv.len() < 3 {
         eprintln!("usage: verif-harness <area> <mode> [--seed N] [--tier T] [--out DIR] ...");
